@@ -109,6 +109,13 @@ def find_cause_pep484585_container_args_1(
         # tensors containing one or more values: e.g.,
         #     RuntimeError: Boolean value of Tensor with more than one value is
         #     ambiguous
+        #
+        # Note that the length of this container is measured *ONLY* if this
+        # container is a collection. Quasiiterable hints (e.g.,
+        # "collections.abc.Iterable[...]") are also satisfied by unsized
+        # one-shot iterables (e.g., generators), whose items the type-checking
+        # code deliberately left unchecked and which thus satisfy this hint.
+        not isinstance(cause.pith, Collection) or
         not len(cause.pith) or
         # This child hint is ignorable...
         hint_child_sane is HINT_SANE_IGNORABLE
